@@ -464,7 +464,8 @@ def run(ctx):
                          'out_head': (r.get('res') or [])[:6]} if c['id'] % 23 == 0 else None)
         if r.get('crashed'):
             ctx.obligation('%s case %d runs' % (c['fn'], c['id']), False, 'predicate', r['error'])
-            ctx.violation('%s raised %s' % (c['fn'], r['error']), data={'case': strip(c), 'impl': r})
+            ctx.violation('%s raised %s (proportions %r)' % (c['fn'], r['error'], c['ps']), data={'case': strip(c), 'impl': r})
+            ctx.violations[-1]['prio'] = 0 if in_simplex(c['ps']) else 1
             continue
         finite = r['raised'] or all(math.isfinite(x) for x in r['res'])
         # --- property predicates on the implementation
@@ -504,4 +505,4 @@ def run(ctx):
                     c['fn'], c['cls'], c['ps']), data={'case': strip(c), 'impl': byid[c['id']], 'coq': rr}, no_input=True,
                     broken='correspondence %s' % c['fn'])
     # findings that carry a key (candidates for known_findings.json) are listed after everything else
-    ctx.violations.sort(key=lambda v: 0 if v['key'] is None else 1)
+    ctx.violations.sort(key=lambda v: (0 if v['key'] is None else 1, v.get('prio', 0)))
